@@ -12,7 +12,8 @@ LEAN_MODULES = ["NiftyVerif.Props.C05", "NiftyVerif.Model.TreeShareDriver", "Nif
 DRIVER = "Driver/C05.lean"
 OBLIGATIONS = ["NiftyVerif.C05." + t for t in (
     "subst_letFree", "inlineAll_letFree", "share_sound", "inlineAll_sound", "isSharingOf_sound", "isSharingOf_jac",
-    "mem_keys_subst", "keys_inlineAll", "isSharingOf_dom")]
+    "mem_keys_subst", "keys_inlineAll", "isSharingOf_dom", "share_inverse", "shareAll_letFree", "mem_keys_shareAll",
+    "share_step_accepted")]
 RULE = ("construction scripts of sum/product/chain trees over keys a,b,c with shared leaves and shared sub-trees (object "
         "identity preserved: an operator built once may be used several times); the REAL optimise_operator is run, original "
         "and optimised trees are serialised and the verified Lean checker validates the pair; value and Jacobian are "
@@ -138,6 +139,73 @@ def gen_script(rng, nsteps):
             cands = [i for i in range(len(steps)) if steps[i][0] == "leaf"]
             steps.append(["mul", rng.choice(cands), rng.choice(cands)])
             lin.append(False)
+    return steps
+
+
+def gen_staggered(rng):
+    """three or more leaf chains over the same base that agree to DIFFERENT depths (P@Q@x, R@Q@x, S@x, Q@x itself, ...), combined
+    in a random order and tree shape; several such groups at once; chains of different lengths where one is a prefix of another"""
+    steps = []
+    nexttag = [0]
+
+    def leaf(j, linear=False):
+        t = nexttag[0]
+        while (t % 5 == 4) != linear:
+            t += 1
+        nexttag[0] = t + 1
+        steps.append(["leaf", t, j])
+        return len(steps) - 1
+
+    group_tops = []
+    for key in rng.sample(KEYS, rng.choice([1, 1, 2])):
+        steps.append(["var", key])
+        base = len(steps) - 1
+        depth = rng.choice([1, 2, 3, 4])
+        prefix = [base]
+        for _ in range(depth):
+            prefix.append(leaf(prefix[-1]))
+        tops = []
+        nchains = rng.choice([3, 3, 4, 5])
+        divs = [rng.randrange(0, depth + 1) for _ in range(nchains)]
+        if rng.random() < 0.7:
+            divs[rng.randrange(nchains)] = depth          # one chain is the full prefix (possibly with own leaves on top)
+        if rng.random() < 0.7:
+            divs[rng.randrange(nchains)] = rng.choice([0, 1]) if depth >= 1 else 0   # an early-diverging chain
+        for dv in divs:
+            j = prefix[dv]
+            own = rng.choice([0, 1, 1, 2]) if dv >= 1 else rng.choice([1, 2])
+            for q in range(own):
+                j = leaf(j, linear=(own == 2 and q == 0 and rng.random() < 0.4))
+            tops.append(j)
+        rng.shuffle(tops)
+        if rng.random() < 0.3:
+            tops.append(rng.choice(tops))      # the same chain object below two parents
+        group_tops.append(tops)
+    results = []
+    for tops in group_tops:
+        if rng.random() < 0.5:
+            cur = tops[0]
+            for t in tops[1:]:
+                steps.append([rng.choice(["add", "mul"]), cur, t] if rng.random() < 0.5 else [rng.choice(["add", "mul"]), t, cur])
+                cur = len(steps) - 1
+        else:
+            layer = list(tops)
+            while len(layer) > 1:
+                nxt = []
+                for i in range(0, len(layer) - 1, 2):
+                    steps.append([rng.choice(["add", "mul"]), layer[i], layer[i + 1]])
+                    nxt.append(len(steps) - 1)
+                if len(layer) % 2:
+                    nxt.append(layer[-1])
+                layer = nxt
+            cur = layer[0]
+        results.append(cur)
+    cur = results[0]
+    for r in results[1:]:
+        steps.append([rng.choice(["add", "mul"]), cur, r])
+        cur = len(steps) - 1
+    if steps[-1][0] not in ("add", "mul"):
+        steps.append(["mul", cur, cur])
     return steps
 
 
@@ -394,7 +462,10 @@ def run(ctx):
     cases = load_corpus()
     n = ctx.n(250, 4000)
     for i in range(n):
-        steps = gen_script(ctx.rng, ctx.rng.choice([6, 8, 10, 12] if ctx.quick else [6, 8, 10, 12, 14, 16]))
+        if i % 3 == 2:
+            steps = gen_staggered(ctx.rng)
+        else:
+            steps = gen_script(ctx.rng, ctx.rng.choice([6, 8, 10, 12] if ctx.quick else [6, 8, 10, 12, 14, 16]))
         cases.append(dict(steps=steps, rngseed=ctx.rng.randrange(1000), inseed=ctx.rng.randrange(10 ** 6)))
     reqs, metas = [], []
     for c in cases:
@@ -439,6 +510,9 @@ def run(ctx):
                      val_orig=cmpv(m["val_orig"], v0[0]) if "val_orig" in m else "missing",
                      val_opt=cmpv(m["val_opt"], v1[0]) if "val_opt" in m else "missing")
         ctx.stat("lets=%d" % min(m.get("lets", 0), 6))
+        if m.get("lets", 0) > 0:
+            # did every inserted key replace ALL occurrences of its definition (Ex.maximal)? a statistic, not a requirement
+            ctx.stat("sharing-maximal" if m.get("maximal") else "sharing-partial")
         ctx.stat("size_orig<=%d" % (10 * (1 + m.get("size_orig", 0) // 10)))
         ctx.compare(c, impl, model, note="verified checker verdict / key sets / exact values of the serialised trees vs the real "
                     "optimiser output", nontrivial=m.get("lets", 0) > 0)
